@@ -110,8 +110,8 @@ Section Sync.
   Definition agree_outside (F : list nat) (v d : list bid) : bool :=
     forallb (fun i => existsb (Nat.eqb i) F || N.eqb (nth i v 0%N) (nth i d 0%N)) (seq 0 (length d)).
 
-  (* `newhash j` = the hash copied into a CHG block during this iteration: the C tests hash_is_zero on the block
-     AFTER that copy (sync.c:1015 precedes 1049), so the "was filled with zeros" shortcut looks at the NEW hash *)
+  (* since the fix of F-C05a the hash computed for a CHG block is kept aside (`newhash j`) and stored only when the stripe
+     completes: the "was filled with zeros" shortcut of the on-the-fly repair (hash_is_zero, sync.c) tests the PAST hash *)
   Definition onthefly (slots : list slot) (rds : list rd) (failed : list (nat * N)) (newhash : nat -> option hval)
              (par : list penc) : option (list bid) :=
     let failed := (* sorted by disk index *)
@@ -121,8 +121,7 @@ Section Sync.
     let d := vec_of rds in
     let is_blk j := match nth j slots SEmpty with SFile _ _ b => bstate_eqb (fb_state b) SBlk | _ => false end in
     let zero_chg j := match nth j slots SEmpty with
-                      | SFile _ _ b => bstate_eqb (fb_state b) SChg &&
-                                       hval_eqb (match newhash j with Some h => h | None => fb_hash b end) HZero
+                      | SFile _ _ b => bstate_eqb (fb_state b) SChg && hval_eqb (fb_hash b) HZero
                       | _ => false end in
     let something := existsb (fun jl => is_blk (fst jl)) failed in
     let torec := map fst (filter (fun jl => negb (zero_chg (fst jl))) failed) in
@@ -159,16 +158,8 @@ Section Sync.
                                             else b) (cf_blocks f))) (cd_files d))
          (filter (fun ph => negb (Nat.eqb (fst ph) pos)) (cd_deleted d))
          (cd_links d) (cd_dirs d).
-  (* a skipped stripe: CHG blocks nevertheless keep the hash that was copied into them (sync.c:1015) *)
-  Definition skipped_disk (pos : nat) (newhash : option hval) (d : cdisk) : cdisk :=
-    match newhash with
-    | None => d
-    | Some h =>
-        mkCD (map (fun f => mkCF (cf_name f) (cf_size f) (cf_mtime f) (cf_nsec f) (cf_inode f) (cf_copy f)
-                                 (map (fun b => if Nat.eqb (fb_pos b) pos && bstate_eqb (fb_state b) SChg
-                                                then mkFB SChg pos h else b) (cf_blocks f))) (cd_files d))
-             (cd_deleted d) (cd_links d) (cd_dirs d)
-    end.
+  (* a skipped stripe changes no block: the hashes computed for its CHG blocks are dropped *)
+  Definition skipped_disk (pos : nat) (newhash : option hval) (d : cdisk) : cdisk := d.
 
   Record stripe_out := mkOut {
     so_content : content;
